@@ -42,6 +42,7 @@ theorem runMb_order (s : St) (m mb : Nat) :
 @[simp] theorem runMb_blocked (s : St) (m : Nat) : (runMb s m).blocked = s.blocked := rfl
 @[simp] theorem runMb_gate (s : St) (m : Nat) : (runMb s m).gateMb = s.gateMb := rfl
 @[simp] theorem runMb_posted (s : St) (m : Nat) : (runMb s m).posted = s.posted := rfl
+@[simp] theorem runMb_stuck (s : St) (m : Nat) : (runMb s m).stuck = s.stuck := rfl
 
 theorem mem_runMb_mq (s : St) (m : Nat) (p : Nat × Nat) : p ∈ (runMb s m).mq ↔ p ∈ s.mq ∧ p.1 ≠ m := by
   simp [runMb, List.mem_filter]
@@ -50,7 +51,7 @@ theorem mem_runMb_mq (s : St) (m : Nat) (p : Nat × Nat) : p ∈ (runMb s m).mq 
 /-- several runs in a row (the loop goroutine draining the channel) -/
 theorem foldl_runMb_fields (l : List Nat) : ∀ (s : St),
     (l.foldl runMb s).cap = s.cap ∧ (l.foldl runMb s).queue = s.queue ∧ (l.foldl runMb s).blocked = s.blocked ∧
-    (l.foldl runMb s).gateMb = s.gateMb ∧ (l.foldl runMb s).posted = s.posted := by
+    (l.foldl runMb s).gateMb = s.gateMb ∧ (l.foldl runMb s).posted = s.posted ∧ (l.foldl runMb s).stuck = s.stuck := by
   induction l with
   | nil => intro s; simp
   | cons m l ih => intro s; simpa using ih (runMb s m)
@@ -151,13 +152,16 @@ theorem inv_post (s : St) (mb msg : Nat) (gate : Bool) (h : Inv s) : Inv (post s
         · subst hp; right; left; simp
 
 theorem inv_release (s : St) (h : Inv s) : Inv (release s) := by
-  obtain ⟨h1, h2, h3, h4⟩ := h
   unfold release
+  by_cases hst : s.stuck = true
+  · rw [if_pos hst]; exact h
+  obtain ⟨h1, h2, h3, h4⟩ := h
+  rw [if_neg hst]
   cases hg : s.gateMb with
   | none => exact ⟨h1, h2, h3, h4⟩
   | some g =>
     simp only
-    obtain ⟨fc, fq, fb, fg, fp⟩ := foldl_runMb_fields (s.queue ++ s.blocked) (runMb { s with gateMb := none, queue := [], blocked := [] } g)
+    obtain ⟨fc, fq, fb, fg, fp, _⟩ := foldl_runMb_fields (s.queue ++ s.blocked) (runMb { s with gateMb := none, queue := [], blocked := [] } g)
     refine ⟨fun _ => ⟨by rw [fq]; rfl, by rw [fb]; rfl⟩, by rw [fq, fc]; simp, ?_, ?_⟩
     · intro p hp
       rw [mem_foldl_runMb_mq, mem_runMb_mq] at hp
@@ -173,10 +177,66 @@ theorem inv_release (s : St) (h : Inv s) : Inv (release s) := by
       rw [foldl_runMb_order, runMb_order, fp]
       exact h4 m
 
+/-- a post by the handler on the loop goroutine: the same protocol; when the channel is full the loop goroutine
+becomes one more blocked sender -/
+theorem inv_selfPost (s : St) (mb msg : Nat) (h : Inv s) : Inv (selfPost s mb msg) := by
+  unfold selfPost
+  cases hg : s.gateMb with
+  | none => exact h
+  | some g =>
+    simp only
+    by_cases hst : s.stuck = true
+    · rw [if_pos hst]; exact h
+    obtain ⟨h1, h2, h3, h4⟩ := h
+    rw [if_neg hst]
+    by_cases hs : scheduled s mb = true
+    · simp only [hs, if_true]
+      refine ⟨by simp, h2, ?_, fun m => order_append _ _ _ _ m (h4 m)⟩
+      intro p hp
+      simp only [List.mem_append, List.mem_singleton] at hp
+      rw [scheduled_iff]
+      rcases hp with hp | hp
+      · have := h3 p hp
+        rw [scheduled_iff, hg] at this
+        exact this
+      · subst hp
+        have := hs
+        rw [scheduled_iff, hg] at this
+        exact this
+    · simp only [hs, Bool.false_eq_true, if_false]
+      by_cases hl : s.queue.length < s.cap
+      · simp only [hl, if_true]
+        refine ⟨by simp, by simp; omega, ?_, fun m => order_append _ _ _ _ m (h4 m)⟩
+        intro p hp
+        simp only [List.mem_append, List.mem_singleton] at hp
+        rw [scheduled_iff]
+        rcases hp with hp | hp
+        · have := h3 p hp
+          rw [scheduled_iff] at this
+          rcases this with t | t | t
+          · left; simp [t]
+          · right; left; exact t
+          · right; right; rw [hg] at t; exact t
+        · subst hp; left; simp
+      · simp only [hl, if_false]
+        refine ⟨by simp, h2, ?_, fun m => order_append _ _ _ _ m (h4 m)⟩
+        intro p hp
+        simp only [List.mem_append, List.mem_singleton] at hp
+        rw [scheduled_iff]
+        rcases hp with hp | hp
+        · have := h3 p hp
+          rw [scheduled_iff] at this
+          rcases this with t | t | t
+          · left; exact t
+          · right; left; simp [t]
+          · right; right; rw [hg] at t; exact t
+        · subst hp; right; left; simp
+
 theorem inv_step (s : St) (op : Op) (h : Inv s) : Inv (step s op) := by
   cases op with
   | post mb msg g => exact inv_post s mb msg g h
   | release => exact inv_release s h
+  | selfPost mb msg => exact inv_selfPost s mb msg h
 
 theorem inv_run (ops : List Op) : ∀ s, Inv s → Inv (runOps s ops) := by
   induction ops with
@@ -190,7 +250,13 @@ theorem inv_run (ops : List Op) : ∀ s, Inv s → Inv (runOps s ops) := by
 @[simp] theorem release_cap (s : St) : (release s).cap = s.cap := by
   unfold release; split
   · rfl
-  · exact (foldl_runMb_fields _ _).1
+  · split
+    · rfl
+    · exact (foldl_runMb_fields _ _).1
+
+@[simp] theorem selfPost_cap (s : St) (mb msg : Nat) : (selfPost s mb msg).cap = s.cap := by
+  unfold selfPost; repeat' split
+  all_goals simp
 
 theorem run_cap (ops : List Op) : ∀ s, (runOps s ops).cap = s.cap := by
   induction ops with
@@ -228,8 +294,33 @@ theorem full_post (s : St) (mb msg : Nat) (g : Bool) (hi : Inv s) (h : Full s) :
         show s.cap ≤ s.queue.length
         omega
 
+theorem full_selfPost (s : St) (mb msg : Nat) (h : Full s) : Full (selfPost s mb msg) := by
+  unfold selfPost Full at *
+  cases hg : s.gateMb with
+  | none => simpa using h
+  | some g =>
+    simp only
+    by_cases hst : s.stuck = true
+    · rw [if_pos hst]; exact h
+    rw [if_neg hst]
+    by_cases hs : scheduled s mb = true
+    · simpa [hs] using h
+    · simp only [hs, Bool.false_eq_true, if_false]
+      by_cases hl : s.queue.length < s.cap
+      · simp only [hl, if_true]
+        intro hb
+        have := h hb
+        omega
+      · simp only [hl, if_false]
+        intro _
+        show s.cap ≤ s.queue.length
+        omega
+
 theorem full_release (s : St) (h : Full s) : Full (release s) := by
   unfold release Full at *
+  by_cases hst : s.stuck = true
+  · rw [if_pos hst]; exact h
+  rw [if_neg hst]
   cases hg : s.gateMb with
   | none => simpa using h
   | some g =>
@@ -246,5 +337,315 @@ theorem full_run (ops : List Op) : ∀ s, Inv s → Full s → Full (runOps s op
     cases o with
     | post mb msg g => exact full_post s mb msg g hi h
     | release => exact full_release s h
+    | selfPost mb msg => exact full_selfPost s mb msg h
+
+
+/-! ### the loop goroutine blocked on its own channel -/
+
+/-- the loop goroutine sits inside `Schedule` only while a handler is executing and every slot is taken -/
+def StuckInv (s : St) : Prop := s.stuck = true → s.gateMb ≠ none ∧ s.cap ≤ s.queue.length
+
+theorem stuckinv_init : StuckInv init := by simp [StuckInv, init]
+
+theorem stuckinv_post (s : St) (mb msg : Nat) (g : Bool) (hi : Inv s) (h : StuckInv s) : StuckInv (post s mb msg g) := by
+  unfold post StuckInv at *
+  by_cases hs : scheduled s mb = true
+  · simpa [hs] using h
+  · simp only [hs]
+    cases hg : s.gateMb with
+    | none =>
+      have hns : s.stuck = false := by
+        cases hst : s.stuck with
+        | false => rfl
+        | true => exact absurd hg (h hst).1
+      simp only [Bool.false_eq_true, if_false]
+      by_cases hgt : g = true
+      · simp [hgt, hns]
+      · simp [hgt, hns]
+    | some g' =>
+      simp only [Bool.false_eq_true, if_false]
+      by_cases hl : s.queue.length < s.cap
+      · simp only [hl, if_true]
+        intro hst
+        have := (h hst).2
+        omega
+      · simp only [hl, if_false]
+        intro hst
+        exact ⟨by simp, (h hst).2⟩
+
+theorem stuckinv_selfPost (s : St) (mb msg : Nat) (h : StuckInv s) : StuckInv (selfPost s mb msg) := by
+  unfold selfPost StuckInv at *
+  cases hg : s.gateMb with
+  | none => simpa using h
+  | some g =>
+    simp only
+    by_cases hst : s.stuck = true
+    · rw [if_pos hst]; exact h
+    rw [if_neg hst]
+    by_cases hs : scheduled s mb = true
+    · simp only [hs, if_true]; intro h'; exact absurd h' hst
+    · simp only [hs, Bool.false_eq_true, if_false]
+      by_cases hl : s.queue.length < s.cap
+      · simp only [hl, if_true]; intro h'; exact absurd h' hst
+      · simp only [hl, if_false]
+        intro _
+        refine ⟨by simp, ?_⟩
+        show s.cap ≤ s.queue.length
+        omega
+
+theorem release_stuck (s : St) : (release s).stuck = s.stuck := by
+  unfold release
+  by_cases hst : s.stuck = true
+  · rw [if_pos hst]
+  · rw [if_neg hst]
+    split
+    · rfl
+    · exact (foldl_runMb_fields _ _).2.2.2.2.2
+
+theorem stuckinv_release (s : St) (h : StuckInv s) : StuckInv (release s) := by
+  by_cases hst : s.stuck = true
+  · have : release s = s := by unfold release; rw [if_pos hst]
+    rw [this]; exact h
+  · intro h'
+    rw [release_stuck] at h'
+    exact absurd h' hst
+
+theorem stuckinv_step (s : St) (op : Op) (hi : Inv s) (h : StuckInv s) : StuckInv (step s op) := by
+  cases op with
+  | post mb msg g => exact stuckinv_post s mb msg g hi h
+  | release => exact stuckinv_release s h
+  | selfPost mb msg => exact stuckinv_selfPost s mb msg h
+
+theorem stuckinv_run (ops : List Op) : ∀ s, Inv s → StuckInv s → StuckInv (runOps s ops) := by
+  induction ops with
+  | nil => intro s _ h; exact h
+  | cons o ops ih => intro s hi h; exact ih _ (inv_step s o hi) (stuckinv_step s o hi h)
+
+/-- once the loop goroutine is blocked on its own channel, no operation delivers anything any more -/
+theorem stuck_step (s : St) (op : Op) (hs : s.stuck = true) (hg : s.gateMb ≠ none) :
+    (step s op).stuck = true ∧ (step s op).gateMb ≠ none ∧ (step s op).ran = s.ran := by
+  cases op with
+  | release =>
+    have : release s = s := by unfold release; rw [if_pos hs]
+    show (release s).stuck = true ∧ (release s).gateMb ≠ none ∧ (release s).ran = s.ran
+    rw [this]; exact ⟨hs, hg, rfl⟩
+  | selfPost mb msg =>
+    have : selfPost s mb msg = s := by
+      unfold selfPost
+      cases hgm : s.gateMb with
+      | none => rfl
+      | some g => simp only; rw [if_pos hs]
+    show (selfPost s mb msg).stuck = true ∧ (selfPost s mb msg).gateMb ≠ none ∧ (selfPost s mb msg).ran = s.ran
+    rw [this]; exact ⟨hs, hg, rfl⟩
+  | post mb msg g =>
+    simp only [step]
+    unfold post
+    cases hgm : s.gateMb with
+    | none => exact absurd hgm hg
+    | some g' =>
+      by_cases hsc : scheduled s mb = true
+      · simp [hsc, hs]
+      · simp only [hsc, Bool.false_eq_true, if_false]
+        by_cases hl : s.queue.length < s.cap
+        · simp [hl, hs]
+        · simp [hl, hs]
+
+theorem stuck_run (ops : List Op) : ∀ s, s.stuck = true → s.gateMb ≠ none →
+    (runOps s ops).stuck = true ∧ (runOps s ops).ran = s.ran := by
+  induction ops with
+  | nil => intro s hs _; exact ⟨hs, rfl⟩
+  | cons o ops ih =>
+    intro s hs hg
+    obtain ⟨a, b, c⟩ := stuck_step s o hs hg
+    obtain ⟨d, e⟩ := ih (step s o) a b
+    exact ⟨d, e.trans c⟩
+
+/-! ### few mailboxes: the channel can never fill up -/
+
+/-- pigeonhole: a duplicate-free list of numbers below `n` has at most `n` entries -/
+theorem nodup_bound : ∀ (n : Nat) (l : List Nat), l.Nodup → (∀ x ∈ l, x < n) → l.length ≤ n := by
+  intro n
+  induction n with
+  | zero =>
+    intro l _ h
+    cases l with
+    | nil => simp
+    | cons a t => exact absurd (h a (by simp)) (by omega)
+  | succ n ih =>
+    intro l hn h
+    have h1 : (l.erase n).Nodup := hn.sublist (List.erase_sublist)
+    have h2 : ∀ x ∈ l.erase n, x < n := by
+      intro x hx
+      have hx' := (List.Nodup.mem_erase_iff hn).1 hx
+      have := h x hx'.2
+      omega
+    have := ih (l.erase n) h1 h2
+    rw [List.length_erase] at this
+    split at this <;> omega
+
+def opMb : Op → Option Nat
+  | .post mb _ _ => some mb
+  | .selfPost mb _ => some mb
+  | .release => none
+
+/-- every operation addresses a mailbox with an id below `n` -/
+def OpsBelow (n : Nat) (ops : List Op) : Prop := ∀ o ∈ ops, ∀ mb, opMb o = some mb → mb < n
+
+/-- with at most `cap` mailboxes on the dispatcher: each buffered run belongs to a different mailbox, none of them to the
+one being executed, nobody is blocked, the loop goroutine is not stuck -/
+def Small (n : Nat) (s : St) : Prop :=
+  s.queue.Nodup ∧ (∀ m ∈ s.queue, m < n) ∧ (∀ g, s.gateMb = some g → g ∉ s.queue ∧ g < n) ∧
+  (s.gateMb = none → s.queue = []) ∧ s.blocked = [] ∧ s.stuck = false
+
+theorem small_init (n : Nat) : Small n init := by simp [Small, init]
+
+/-- room for one more: the executing mailbox, the target and the buffered ones are all different -/
+theorem small_room (n : Nat) (s : St) (hn : n ≤ s.cap) (h : Small n s) (g mb : Nat) (hg : s.gateMb = some g)
+    (hmb : mb < n) (hs : scheduled s mb = false) : s.queue.length < s.cap := by
+  obtain ⟨h1, h2, h3, _, _, _⟩ := h
+  obtain ⟨hgq, hgn⟩ := h3 g hg
+  have hns : ¬ (mb ∈ s.queue ∨ mb ∈ s.blocked ∨ s.gateMb = some mb) := by
+    rw [← scheduled_iff]; simp [hs]
+  have hmq : mb ∉ s.queue := fun t => hns (Or.inl t)
+  have hmg : mb ≠ g := fun t => hns (Or.inr (Or.inr (by rw [hg, t])))
+  have hnd : (mb :: g :: s.queue).Nodup := by
+    simp only [List.nodup_cons, List.mem_cons, not_or]
+    exact ⟨⟨hmg, hmq⟩, hgq, h1⟩
+  have hb : ∀ x ∈ (mb :: g :: s.queue), x < n := by
+    intro x hx
+    simp only [List.mem_cons] at hx
+    rcases hx with hx | hx | hx
+    · rw [hx]; exact hmb
+    · rw [hx]; exact hgn
+    · exact h2 x hx
+  have := nodup_bound n _ hnd hb
+  simp only [List.length_cons] at this
+  omega
+
+theorem small_post (n : Nat) (s : St) (mb msg : Nat) (g : Bool) (hn : n ≤ s.cap) (hmb : mb < n) (h : Small n s) :
+    Small n (post s mb msg g) := by
+  unfold post
+  by_cases hs : scheduled s mb = true
+  · simp only [hs, if_true]; exact h
+  · have hs' : scheduled s mb = false := by simpa using hs
+    simp only [hs]
+    cases hg : s.gateMb with
+    | none =>
+      obtain ⟨h1, h2, _, h4, h5, h6⟩ := h
+      have hq := h4 hg
+      simp only [Bool.false_eq_true, if_false]
+      by_cases hgt : g = true
+      · simp only [hgt, if_true]
+        refine ⟨by simpa using h1, by simpa using h2, ?_, by simp, by simpa using h5, by simpa using h6⟩
+        intro g' hg'
+        simp only [Option.some.injEq] at hg'
+        subst hg'
+        exact ⟨by simp [hq], hmb⟩
+      · simp only [hgt]
+        refine ⟨by simpa using h1, by simpa using h2, ?_, fun _ => by simpa using hq, by simpa using h5, by simpa using h6⟩
+        intro g' hg'
+        simp [hg] at hg'
+    | some g' =>
+      have hroom := small_room n s hn h g' mb hg hmb hs'
+      obtain ⟨h1, h2, h3, _, h5, h6⟩ := h
+      obtain ⟨hgq, hgn⟩ := h3 g' hg
+      have hns : ¬ (mb ∈ s.queue ∨ mb ∈ s.blocked ∨ s.gateMb = some mb) := by
+        rw [← scheduled_iff]; simp [hs']
+      simp only [Bool.false_eq_true, if_false, hroom, if_true]
+      refine ⟨?_, ?_, ?_, by simp, h5, h6⟩
+      · rw [List.nodup_append]
+        refine ⟨h1, by simp, ?_⟩
+        intro a ha b hb
+        simp only [List.mem_singleton] at hb
+        intro hab
+        exact hns (Or.inl (by rw [← hb, ← hab]; exact ha))
+      · intro m hm
+        simp only [List.mem_append, List.mem_singleton] at hm
+        rcases hm with hm | hm
+        · exact h2 m hm
+        · rw [hm]; exact hmb
+      · intro g'' hg''
+        simp only [Option.some.injEq] at hg''
+        subst hg''
+        refine ⟨?_, hgn⟩
+        simp only [List.mem_append, List.mem_singleton, not_or]
+        refine ⟨hgq, ?_⟩
+        intro t
+        exact hns (Or.inr (Or.inr (by rw [hg, t])))
+
+theorem small_selfPost (n : Nat) (s : St) (mb msg : Nat) (hn : n ≤ s.cap) (hmb : mb < n) (h : Small n s) :
+    Small n (selfPost s mb msg) := by
+  unfold selfPost
+  cases hg : s.gateMb with
+  | none => exact h
+  | some g' =>
+    simp only
+    have hst : ¬ s.stuck = true := by simp [h.2.2.2.2.2]
+    rw [if_neg hst]
+    by_cases hs : scheduled s mb = true
+    · simp only [hs, if_true]
+      obtain ⟨h1, h2, h3, h4, h5, h6⟩ := h
+      refine ⟨h1, h2, ?_, by simp, h5, h6⟩
+      intro g'' hg''
+      simp only [Option.some.injEq] at hg''
+      subst hg''
+      exact h3 g' hg
+    · have hs' : scheduled s mb = false := by simpa using hs
+      have hroom := small_room n s hn h g' mb hg hmb hs'
+      obtain ⟨h1, h2, h3, _, h5, h6⟩ := h
+      obtain ⟨hgq, hgn⟩ := h3 g' hg
+      have hns : ¬ (mb ∈ s.queue ∨ mb ∈ s.blocked ∨ s.gateMb = some mb) := by
+        rw [← scheduled_iff]; simp [hs']
+      simp only [hs, Bool.false_eq_true, if_false, hroom, if_true]
+      refine ⟨?_, ?_, ?_, by simp, h5, h6⟩
+      · rw [List.nodup_append]
+        refine ⟨h1, by simp, ?_⟩
+        intro a ha b hb
+        simp only [List.mem_singleton] at hb
+        intro hab
+        exact hns (Or.inl (by rw [← hb, ← hab]; exact ha))
+      · intro m hm
+        simp only [List.mem_append, List.mem_singleton] at hm
+        rcases hm with hm | hm
+        · exact h2 m hm
+        · rw [hm]; exact hmb
+      · intro g'' hg''
+        simp only [Option.some.injEq] at hg''
+        subst hg''
+        refine ⟨?_, hgn⟩
+        simp only [List.mem_append, List.mem_singleton, not_or]
+        refine ⟨hgq, ?_⟩
+        intro t
+        exact hns (Or.inr (Or.inr (by rw [hg, t])))
+
+theorem small_release (n : Nat) (s : St) (h : Small n s) : Small n (release s) := by
+  unfold release
+  have hst : ¬ s.stuck = true := by simp [h.2.2.2.2.2]
+  rw [if_neg hst]
+  cases hg : s.gateMb with
+  | none => simp only; exact h
+  | some g =>
+    simp only
+    obtain ⟨_, fq, fb, fg, _, fs⟩ := foldl_runMb_fields (s.queue ++ s.blocked) (runMb { s with gateMb := none, queue := [], blocked := [] } g)
+    refine ⟨by rw [fq]; simp, by rw [fq]; simp, ?_, fun _ => by rw [fq]; rfl, by rw [fb]; rfl, by rw [fs]; simpa using h.2.2.2.2.2⟩
+    intro g' hg'
+    rw [fg] at hg'
+    simp at hg'
+
+theorem small_run (n : Nat) (ops : List Op) : ∀ s, n ≤ s.cap → OpsBelow n ops → Small n s → Small n (runOps s ops) := by
+  induction ops with
+  | nil => intro s _ _ h; exact h
+  | cons o ops ih =>
+    intro s hn hb h
+    have hb' : OpsBelow n ops := fun o' ho' => hb o' (List.mem_cons_of_mem _ ho')
+    have ho := hb o (List.mem_cons_self)
+    show Small n (runOps (step s o) ops)
+    cases o with
+    | post mb msg g =>
+      exact ih _ (by simpa [step] using hn) hb' (small_post n s mb msg g hn (ho mb rfl) h)
+    | release =>
+      exact ih _ (by simpa [step] using hn) hb' (small_release n s h)
+    | selfPost mb msg =>
+      exact ih _ (by simpa [step] using hn) hb' (small_selfPost n s mb msg hn (ho mb rfl) h)
 
 end Cell2v.SchedDisp
